@@ -240,6 +240,44 @@ seed("c11-ret-whitelist", "C11", "R-enum-whitelist", "conn.go",
 				c.writeResponse(501, EnhancedCode{5, 5, 4}, "Unknown RET value")
 				return
 			}""", """			}""", "any RET value accepted")
+seed("c11-quoted-pair", "C11", "R-quoted-pair-table", "parse.go",
+"""			switch ch {
+			case '\\\\':
+				ch, ok = p.readByte()
+			case '"':
+				return sb.String(), nil
+			}""", """			if ch == '\\\\' {
+				ch, ok = p.readByte()
+			}
+			if ch == '"' {
+				return sb.String(), nil
+			}""", "escaped quote ends the quoted-string")
+seed("c14-orcpt-split-all", "C14", "R-enc-dec-disjoint", "conn.go",
+"""	tv := strings.SplitN(val, ";", 2)""", """	tv := strings.Split(val, ";")""", "ORCPT address split at every ';'")
+seed("c15-encoder-bypass", "C15", "R-enc-raw-set", "conn.go",
+"""func encodeXtext(raw string) string {
+	var out strings.Builder""", """func encodeXtext(raw string) string {
+	if !strings.ContainsAny(raw, "+= ") {
+		return raw
+	}
+	var out strings.Builder""", "encoder fast path returns the raw value")
+seed("c16-loop-returns-early", "C16", "R-lmtp-loop-complete", "client.go",
+"""					} else if firstErr == nil {
+						firstErr = smtpErr
+					}""", """					} else {
+						return smtpErr
+					}""", "first LMTP refusal leaves the other replies unread")
+seed("c10-reset-skips-envelope", "C10", "R-tls-success-effects", "conn.go",
+"""	if c.session != nil {
+		c.session.Reset()
+	}
+
+	c.fromReceived = false""", """	if c.session == nil {
+		return
+	}
+	c.session.Reset()
+
+	c.fromReceived = false""", "reset() keeps the envelope when no session exists (after STARTTLS)")
 seed("c12-requiretls-plain", "C12", "R-caps-table", "conn.go",
 "if _, isTLS := c.TLSConnectionState(); isTLS && c.server.EnableREQUIRETLS {", "if c.server.EnableREQUIRETLS {", "REQUIRETLS advertised in plaintext")
 seed("c12-size-value", "C12", "R-caps-table", "conn.go",
